@@ -158,7 +158,7 @@ func readHeader(reader io.ReaderAt) (map[[2]byte]uint64, map[string]string, int6
 		if err != nil {
 			return nil, nil, 0, fmt.Errorf("failed to read numMeta: %w", err)
 		}
-		meta := make(map[string]string, numMeta)
+		meta := make(map[string]string) // numMeta comes from the file: do not pre-size with it
 		for i := uint64(0); i < numMeta; i++ {
 			key, err := decoder.ReadString()
 			if err != nil {
@@ -177,7 +177,7 @@ func readHeader(reader io.ReaderAt) (map[[2]byte]uint64, map[string]string, int6
 		return nil, nil, 0, fmt.Errorf("failed to read numPrefixes: %w", err)
 	}
 	// prefix -> offset:
-	prefixToOffset := make(map[[2]byte]uint64, numPrefixes)
+	prefixToOffset := make(map[[2]byte]uint64) // numPrefixes comes from the file: do not pre-size with it
 	for i := uint64(0); i < numPrefixes; i++ {
 		var prefix [2]byte
 		_, err := decoder.Read(prefix[:])
